@@ -406,3 +406,27 @@ CHECKS["C07"] = dict(
     technique="property-based testing (rapid): stateful history generation with an invariant at quiescence and a continuous no-overlap monitor",
     design_ref="DESIGN.md section 4, C07",
 )
+
+CHECKS["C02"] = dict(
+    pkg="c02", level="exploration",
+    props=[dict(name="TestPropConverge", quick=36, thorough=16 * 20, shards_quick=12, shards_thorough=16, shrinktime="120s",
+                timeout_quick=1800, timeout_thorough=10800)],
+    rule="two real instances on loopback TCP (upstream 'cloud', downstream 'dev1'); on the downstream client.NewManager runs "
+         "client.NewSyncClient for a sync node with period 1 s. After the initial catch-up a history of 6-20 steps is issued on "
+         "either side against nodes visible there: node-point and edge-point writes, node creation (points then edge), "
+         "tombstone and undelete of edges, link down / up (the sync node's disabled point), one upstream restart (store and "
+         "bus stopped and started again on the same port and file), with drawn 0-150 ms delays; all harness writes carry "
+         "strictly increasing wall-clock-based timestamps. Then the link is brought up and the harness polls, bounded by 25 s, "
+         "until two consecutive dumps of the device subtree (deleted nodes included, walked with nodes.* on both sides) are "
+         "identical. Oracle: same node set and types; for every node and edge the same newest point per identity (origin "
+         "excepted; the device node's own edge points excepted, documented as unsynchronised); each identity the harness wrote "
+         "holds exactly the newest acknowledged write of either side (tombstones: at least as new). Non-trivial = an outage "
+         "during which both sides were written.",
+    assumptions=["message timings are the scheduler's, perturbed only by the drawn delays", "convergence is demanded within 25 s (period 1 s, reconnect back-off 1-2 s)",
+                 "timestamps are distinct per identity"],
+    level_text="Generated two-sided histories with link faults (rapid) on two real instances joined by the real sync client; the oracle is "
+               "dump equality plus a newest-write model. Schedules are sampled, not enumerated.",
+    level_note="Trusted: wall-clock ordering between the harness's timestamps and the sync client's own time.Now() stamps on one machine.",
+    technique="property-based testing (rapid): stateful two-instance history with fault injection, convergence + newest-write oracle",
+    design_ref="DESIGN.md section 4, C02",
+)
